@@ -206,7 +206,14 @@ async fn handle(
         } => handle_stream_append(&mut store, req, topic, ttl, context_id).await,
 
         Routes::CasGet(hash) => {
-            let reader = store.cas_reader(hash).await?;
+            let reader = match store.cas_reader(hash).await {
+                Ok(reader) => reader,
+                // content that was never stored is a 404, not a dropped connection
+                Err(cacache::Error::IoError(e, _)) if e.kind() == std::io::ErrorKind::NotFound => {
+                    return response_404()
+                }
+                Err(e) => return response_500(e.to_string()),
+            };
             let stream = ReaderStream::new(reader);
 
             let stream = stream.map(|frame| {
